@@ -41,6 +41,25 @@ def handle (j : Json) : Option Json := do
                 ("val_r", jRat (full.getD r 0)), ("skip_r", jRat (skip.getD r 0)),
                 ("def_val_r", match vr with | some v => jRat v | none => Json.null),
                 ("def_skip_r", match vs with | some v => jRat v | none => Json.null)])
+  | "approx_seq" =>
+    -- a history of `_add_approximations` calls on one component: decls [[of, wrt, method]],
+    -- live0 the methods that have a scheme before the first call, rels the relevant wrt ids per call
+    let fixed ← fieldBool? j "fixed"
+    let dl ← fieldList? j "decls"
+    let decls ← dl.mapM (fun e => do
+      match ← getList? e with
+      | [a, b, c] => pure ({ of := ← getNat? a, wrt := ← getNat? b, method := ← getNat? c } : Decl)
+      | _ => none)
+    let live0 ← fieldNats? j "live0"
+    let rl ← fieldList? j "rels"
+    let rels ← rl.mapM (fun e => do (← getList? e).mapM getNat?)
+    let (_, outs) := rels.foldl (fun (acc : List Nat × List Json) r =>
+      let rel : Nat → Bool := fun w => r.contains w
+      let live := acc.1
+      let after := approxStep fixed decls live rel
+      let row := jArr (fun m => Json.arr #[jNat m, jNats (approxQuery fixed decls live rel m)]) after
+      (after, acc.2 ++ [row])) (live0, [])
+    pure (jObj [("steps", Json.arr outs.toArray)])
   | _ => none
 
 def main : IO Unit := runDriver handle
